@@ -263,12 +263,15 @@ let () =
               if not (reason_text_ok v) then ok := false end
           | None -> ()) (split_ws impl_line);
       Printf.printf "%s | %s\n" impl_line (if !ok then "oracle=ok" else "oracle=fail@reason-phrase-not-printable")
-    | mode :: rest when mode = "D" || mode = "S" || mode = "I" ->
+    | mode :: rest when mode = "D" || mode = "S" || mode = "I" || mode = "X" ->
       let (rest, ann) = (let rec cut acc = function
           | "@c09" :: a -> (List.rev acc, Some a) | x :: r -> cut (x :: acc) r | [] -> (List.rev acc, None) in cut [] rest) in
       let (small, cache, script) = (match mode, rest with
           | "D", [s; c; sc] -> (s, c, sc)
           | ("S" | "I"), [s; c; _; _; sc] -> (s, c, sc)
+          (* X: a disk write fault while the upload (longer than the file-size limit) is saved: the same
+             ErrorSavingFile path as a cache directory that cannot be written *)
+          | "X", [s; _; _limit; sc] -> (s, "missing", sc)
           | _ -> failwith "bad case") in
       let data = List.map n_of_int (expand_bytes_ints script) in
       let cache_dir = (match cache with "-" -> None | "ok" -> Some true | _ -> Some false) in
@@ -287,6 +290,20 @@ let () =
         (let v = oracle (List.map int_of_n data) impl_line in
          (* mode I: no temp file may exist once every request sent so far has been answered, although the
             connection is still open and idle *)
+         (* mode X (disk write fault while the upload is saved): whatever the handler is given as a file must be,
+            byte for byte, the body the client sent -- never a shortened one *)
+         let v = if mode = "X" && v = "oracle=ok" then begin
+             let parts = String.split_on_char '+' script in
+             let body = (match List.find_opt (fun p -> String.length p > 0 && p.[0] = 'g') parts with
+                 | Some p -> expand_bytes_ints p | None -> []) in
+             let want = "F" ^ digest_tok_ints body in
+             let lg = (match field "log=[" (split_ws impl_line) with Some l -> String.sub l 0 (String.length l - 1) | None -> "") in
+             let views = List.filter_map (fun e -> match String.index_opt e ':' with
+                 | Some i -> Some (String.sub e (i + 1) (String.length e - i - 1)) | None -> None)
+                 (if lg = "" then [] else String.split_on_char ',' lg) in
+             if List.exists (fun v -> String.length v > 0 && v.[0] = 'F' && v <> want) views
+             then "oracle=fail@handler-got-a-damaged-body-after-a-write-fault" else v
+           end else v in
          let v = if mode = "I" && v = "oracle=ok" && field "idle=" (split_ws impl_line) <> Some "0"
            then "oracle=fail@temp-file-alive-after-its-request-was-answered" else v in
          match ann, v with
